@@ -93,13 +93,22 @@ def main():
         mid2 = max(abs(float(f(n / 2 + h)) - 2 * float(f(n / 2)) + float(f(n / 2 - h))), 1e-300)
         hh = 1e-4
         if gl is not None:
-            g = (-3 * float(f(0.0)) + 4 * float(f(hh)) - float(f(2 * hh))) / (2 * hh)
-            acc.add("gradient at the lower end = requested", b, abs(g / gl - 1), 1e-4, where=params)
+            def g_lo(h_):
+                return (-3 * float(f(0.0)) + 4 * float(f(h_)) - float(f(2 * h_))) / (2 * h_)
+
+            # the smallest error over several steps: a coarse step does not resolve the boundary layer of
+            # the squashed branches, a fine one is limited by the evaluation noise of the special functions
+            # (1e-12 against a requested gradient of 1e-4); a wrong gradient shows at every step
+            eg = min(abs(g_lo(h_) / gl - 1) for h_ in (1e-2, 1e-3, 1e-4, 1e-5))
+            acc.add("gradient at the lower end = requested", b, eg, 1e-4, where=params)
             rs = [curv_ratio(f, n, 0.0, +1, hh_ * n) for hh_ in (1e-2, 1e-3, 1e-4, 3e-5)]
             acc.add("second derivative vanishes at the constrained lower end", b, rs[-1] / 0.2, 1.0, where=dict(params, ratios=rs), note="one-sided second difference over [0,2h]/h^2 relative to max|f''| at h=3e-5*n (the squashed branches have a boundary layer that coarser steps cannot resolve); must be <=0.2")
         if gu is not None:
-            g = (3 * float(f(float(n))) - 4 * float(f(n - hh)) + float(f(n - 2 * hh))) / (2 * hh)
-            acc.add("gradient at the upper end = requested", b, abs(g / gu - 1), 1e-4, where=params)
+            def g_up(h_):
+                return (3 * float(f(float(n))) - 4 * float(f(n - h_)) + float(f(n - 2 * h_))) / (2 * h_)
+
+            eg = min(abs(g_up(h_) / gu - 1) for h_ in (1e-2, 1e-3, 1e-4, 1e-5))
+            acc.add("gradient at the upper end = requested", b, eg, 1e-4, where=params)
             rs = [curv_ratio(f, n, float(n), -1, hh_ * n) for hh_ in (1e-2, 1e-3, 1e-4, 3e-5)]
             acc.add("second derivative vanishes at the constrained upper end", b, rs[-1] / 0.2, 1.0, where=dict(params, ratios=rs))
         # make1dGrid: faces = f(i), centres = mid-points
